@@ -133,6 +133,8 @@ def check_plane(case):
         tag("value-" + case["sel"][0])
         cands = adm(lat, d, case["sel"])
         x = coord(lat, d, case["sel"])
+        if case["seed"] % 3 == 0:
+            x = np.float64(x)  # a numpy float, as it comes out of an array of coordinates
         call = lambda obj: obj.sel(**{dims[d]: x})  # noqa: E731
     if nd == 1:
         res = call(f)
@@ -216,6 +218,8 @@ def check_range(case):
         if isinstance(xa, int) != isinstance(xb, int):
             tag("mixed-int-float-bounds")
     conv = {"tuple": tuple, "list": list, "array": np.array}[case["container"]]
+    if case["seed"] % 3 == 0 and not case.get("int_mix"):
+        xa, xb = (np.int64(xa) if isinstance(xa, int) else np.float64(xa)), (np.int64(xb) if isinstance(xb, int) else np.float64(xb))
     tag("face-bound" if "v" in (a[0], b[0]) else "interior-bounds")
     on_sub_face = any(s[0] == "v" and any(s[1] in (sb[1][d], sb[2][d]) for sb in case["subs"]) for s in (a, b))
     if on_sub_face:
